@@ -124,7 +124,11 @@ def gen_history(rng, length, opts=None):
             ops.append({"op": "rm_ws", "e": list(e)})
             # shadow: mirror only when everything in the subtree is deletable; otherwise the partial effect is left to
             # the model/implementation and the shadow is resynchronised conservatively by forgetting the subtree
-            sh.drop(e) if all(sh.dele.get(x, True) for x in sh.subtree(e)) else _partial(sh, e)
+            # a tainted node in the subtree may still hide a protected descendant (its shadow children were forgotten), so
+            # the removal may be refused again: stay conservative there too (thorough run 2, case 214: rm_ws of the
+            # grand-parent of a protected data was assumed to succeed and its identifier was re-used while still live)
+            clean = all(sh.dele.get(x, True) and x not in sh.tainted for x in sh.subtree(e))
+            sh.drop(e) if clean else _partial(sh, e)
         elif w == "rm_parent" and nonroot:
             e = rng.choice(nonroot)
             ops.append({"op": "rm_parent", "e": list(e)})
